@@ -85,6 +85,12 @@ Theorem C17_entity_named_page_refuted :
 Proof. exact entity_named_page_refuted. Qed.
 Print Assumptions C17_entity_named_page_refuted.
 
+Theorem C17_status_case_refuted :
+  exists cs, in_quantifier status_case_sample = true /\ reserved_free status_case_sample = true
+    /\ compile status_case_sample = Ok cs /\ client_accepts cs = false.
+Proof. exact status_case_refuted. Qed.
+Print Assumptions C17_status_case_refuted.
+
 (* PARTIAL (1): THE FULL STATEMENT HOLDS FOR EVERY DECLARATION WITHOUT RESERVED NAMES.
    [reserved_free e]: no primary/shard key named page or query, no key named metadata / data /
    status / event, no summary field named upsert, no event or oneof option named type, the entity
